@@ -18,7 +18,7 @@ use crate::grammar::*;
 use crate::slice_file::SliceFile;
 use crate::visitor::Visitor;
 
-use attribute::validate_attributes;
+use attribute::{validate_attributes, validate_type_ref_attributes};
 use comments::validate_common_doc_comments;
 use dictionary::validate_dictionary;
 use enums::validate_enum;
@@ -73,6 +73,9 @@ impl<'a> Visitor for ValidatorVisitor<'a> {
     fn visit_enum(&mut self, enum_def: &Enum) {
         validate_common_doc_comments(enum_def, self.diagnostics);
         validate_attributes(enum_def, self.diagnostics);
+        if let Some(underlying) = &enum_def.underlying {
+            validate_type_ref_attributes(underlying.attributes(), self.diagnostics);
+        }
 
         validate_enum(enum_def, self.diagnostics);
     }
@@ -92,6 +95,9 @@ impl<'a> Visitor for ValidatorVisitor<'a> {
     fn visit_interface(&mut self, interface: &Interface) {
         validate_common_doc_comments(interface, self.diagnostics);
         validate_attributes(interface, self.diagnostics);
+        for base in &interface.bases {
+            validate_type_ref_attributes(base.attributes(), self.diagnostics);
+        }
 
         validate_inherited_identifiers(
             interface.operations(),
